@@ -5,6 +5,22 @@ from collections import deque
 import values
 
 
+class Facts(dict):
+    """block -> must-facts, remembering the function so that value-correlated facts can be added on demand (facts_at)."""
+    fn = None
+    ev = None
+    _corr = None
+
+    def correlated(self, b):
+        if self.fn is None:
+            return frozenset()
+        if self._corr is None:
+            self._corr = {}
+        if b not in self._corr:
+            self._corr[b] = frozenset(correlated_facts(self.fn, self.ev, self, b))
+        return self._corr[b]
+
+
 def edge_facts(fn, ev):
     """(src, dst) -> set of facts established by taking that edge.
     fact = ('eq', term, int) | ('ne', term, int)"""
@@ -93,7 +109,9 @@ def must_facts(fn, ev, live=None):
             return facts
         return frozenset(f for f in facts if not reads_state_of(f, ms))
 
-    IN = {0: frozenset()}
+    IN = Facts()
+    IN.fn, IN.ev = fn, ev
+    IN[0] = frozenset()
     order = fn.rpo()
     changed = True
     while changed:
@@ -173,7 +191,10 @@ def relational(fact):
 
 
 def facts_at(IN, b):
-    return IN.get(b, frozenset())
+    base = IN.get(b, frozenset())
+    if isinstance(IN, Facts) and b in IN:
+        return base | IN.correlated(b)
+    return base
 
 
 def rel_facts_at(IN, b):
@@ -253,8 +274,10 @@ def correlated_facts(fn, ev, IN, b, ef=None):
                 if di == "term":
                     cands.append((db, di))
                     continue
-                vn = variant_of_rvalue(fn.blocks[db].stmts[di]["rv"])
-                if vn is None or vn == vname:
+                rv1 = fn.blocks[db].stmts[di]["rv"]
+                vn = variant_of_rvalue(rv1)
+                # compare by variant index: after `?` the matched enum is ControlFlow (Continue/Break) while the value was built as Ok/Err
+                if vn is None or vn == vname or (rv1.get("variant") == val and vn not in variants.values()):
                     cands.append((db, di))
             if len(cands) == 1:
                 db = cands[0][0]
@@ -286,7 +309,8 @@ def _stable_root(t):
     # precision use site-tagged snapshots
     while isinstance(t, tuple) and t and t[0] in ("field", "vfield", "variant"):
         t = t[1]
-    return isinstance(t, tuple) and t and t[0] == "param"
+    # a call result is a value snapshot (a shared borrow handed out by the callee cannot be mutated while it is alive)
+    return isinstance(t, tuple) and t and t[0] in ("param", "call")
 
 
 def path_conditions(fn, ev, IN, b, ef=None):
